@@ -37,7 +37,9 @@ pub fn eval(sc: &Scenario) -> CaseResult {
     let survivor = (0..sc.peers.len()).find(|p| Some(*p) != victim).unwrap_or(0);
     let so = &out.peers[survivor];
     if r.violation.is_none() {
-        if let Some(_v) = victim {
+        if victim.is_some() && so.running_since_ms.is_none() {
+            // the remote died before the handshake completed on the survivor's side: nothing to detect
+        } else if let Some(_v) = victim {
             // the survivor must have disconnected the victim's players and keep advancing on its own
             let vh: Vec<usize> = (0..out.owners.len()).filter(|h| Some(out.owners[*h]) == victim).collect();
             if !vh.iter().all(|h| so.cs[*h].0) {
@@ -168,6 +170,48 @@ pub fn api_case(i: u64, seed: u64) -> Scenario {
     sc
 }
 
+/// the tick in which the survivor (peer 0) of base config `c` becomes Running when nobody dies
+fn running_tick(c: u64, seed: u64) -> u32 {
+    let mut sc = base(c, seed ^ 0xea71);
+    sc.ticks = 90;
+    sc.settle = 0;
+    let out = run(&sc, &RunOpts::default());
+    match out.peers[0].running_since_ms {
+        Some(ms) => (ms.saturating_sub(out.t0_ms) / 16) as u32,
+        None => 90,
+    }
+}
+
+/// the remote dies (or is disconnected through the API) around the moment the survivor becomes Running:
+/// before any of its inputs arrived, after the first few, with the last 0..=3 ticks of its packets lost
+pub fn early_case(i: u64, seed: u64, offsets: &[u32]) -> Scenario {
+    let c = i % NBASE;
+    let mut v = i / NBASE;
+    let dk = (v % 10) as i64 - 3;
+    v /= 10;
+    let off = offsets[(v % offsets.len() as u64) as usize];
+    v /= offsets.len() as u64;
+    let api = v % 2 == 1;
+    let rt = running_tick(c, seed) as i64;
+    let kt = (rt + dk).max(1) as u32;
+    let mut sc = base(c, seed ^ 0xea71);
+    sc.ticks = kt + 1;
+    sc.settle = (sc.timeout_ms / 16) + 140;
+    if off > 0 {
+        sc.ops.push(Op::LinkDown { tick: kt.saturating_sub(off).max(1), from: peer_addr(1), to: peer_addr(0) });
+    }
+    if api {
+        // the survivor plays on for a few ticks without hearing from the remote, then drops it explicitly
+        let t1 = kt + 1 + (mix(seed, i) % 6) as u32;
+        sc.ticks = t1 + 1;
+        let handle = sc.peers[0].locals;
+        sc.ops.push(Op::Disconnect { tick: t1, peer: 0, handle });
+        sc.ops.push(Op::Disconnect { tick: t1 + 30, peer: 0, handle });
+    }
+    sc.ops.push(Op::Kill { tick: kt, peer: 1 });
+    sc
+}
+
 pub fn run_prop(ctx: &Ctx) -> PropReport {
     let mut rep = PropReport::new("C07", "fault_enumeration");
     let seed = ctx.seed;
@@ -182,6 +226,11 @@ pub fn run_prop(ctx: &Ctx) -> PropReport {
     rep.part(|| run_enum(ctx, "disconnect_player",
         "the same base configs with an explicit disconnect_player call at a seeded moment (and a second call 30 ticks later): first call Ok with immediate effect on the timeline, second call Err, no further events for that address",
         m, move |i| api_case(i, seed), eval, false));
+    let eoffs: Vec<u32> = ctx.tier.pick(vec![0, 2], vec![0, 1, 2, 3]);
+    let ne = NBASE * 10 * eoffs.len() as u64 * 2;
+    rep.part(|| run_enum(ctx, "early_death",
+        "the same base configs; the remote dies (timeout) or is dropped with disconnect_player within -3..=+6 ticks of the tick in which the survivor becomes Running, with the last 0/2 (quick) 0..=3 (thorough) ticks of its packets lost: drops before the first input of the remote has arrived, after one or two inputs, with the survivor already several predicted frames ahead; same oracle (cases in which the survivor never became Running carry no C07 obligation and count as trivial)",
+        ne, move |i| early_case(i, seed, &eoffs), eval, true));
     rep.assumptions = vec!["timing is judged at poll granularity (the session can only notice a timeout when it is polled); polls every 16 ms".into()];
     rep
 }
